@@ -174,8 +174,9 @@ class _Walker:
                 continue
             self.n_div += 1
             d_txt = ast.unparse(d)
-            if c is None and any(_excludes_zero(t, tr, d_txt)
-                                 for t, tr in guards):
+            if c is None and any(_excludes_zero(fold_consts(
+                    self.ctx.repo, self.k.module, t), tr, d_txt)
+                    for t, tr in guards):
                 self.n_guarded += 1
                 continue
             z = 0.0 if c is not None else _at_zero(d)
